@@ -8,11 +8,11 @@ import numpy as np
 import common as C
 
 PID = "C09"
-DRIVER = [("C09", "TfPwaV.Gen.ErrPropF", "ErrPropF.handle"), ("C09x", "TfPwaV.Gen.ErrCtxF", "ErrCtxF.handle")]
-LEAN_TARGETS = ["TfPwaV.Props.C09", "TfPwaV.Props.C09b", "TfPwaV.Props.C09c", "TfPwaV.Gen.ErrPropF", "TfPwaV.Gen.ErrCtxF"]
-PROP_MODULES = ["TfPwaV.Props.C09", "TfPwaV.Props.C09b", "TfPwaV.Props.C09c"]
-ALL_MODULES = ["TfPwaV.Proofs.ErrProp", "TfPwaV.Proofs.ErrCtx", "TfPwaV.Props.C09", "TfPwaV.Props.C09b", "TfPwaV.Props.C09c", "TfPwaV.Proofs.ScalarR",
-               "TfPwaV.Gen.ErrPropR", "TfPwaV.Gen.ErrCtxR"]
+DRIVER = [("C09", "TfPwaV.Gen.ErrPropF", "ErrPropF.handle"), ("C09x", "TfPwaV.Gen.ErrCtxF", "ErrCtxF.handle"), ("C09y", "TfPwaV.Gen.ErrEntryF", "ErrEntryF.handle")]
+LEAN_TARGETS = ["TfPwaV.Props.C09", "TfPwaV.Props.C09b", "TfPwaV.Props.C09c", "TfPwaV.Props.C09d", "TfPwaV.Gen.ErrPropF", "TfPwaV.Gen.ErrCtxF", "TfPwaV.Gen.ErrEntryF"]
+PROP_MODULES = ["TfPwaV.Props.C09", "TfPwaV.Props.C09b", "TfPwaV.Props.C09c", "TfPwaV.Props.C09d"]
+ALL_MODULES = ["TfPwaV.Proofs.ErrProp", "TfPwaV.Proofs.ErrCtx", "TfPwaV.Proofs.ErrEntry", "TfPwaV.Props.C09", "TfPwaV.Props.C09b", "TfPwaV.Props.C09c", "TfPwaV.Props.C09d", "TfPwaV.Proofs.ScalarR",
+               "TfPwaV.Gen.ErrPropR", "TfPwaV.Gen.ErrCtxR", "TfPwaV.Gen.ErrEntryR"]
 ASSUMPTIONS = [
     "IEEE double evaluation of the same formula text (Lean Float vs python/numpy) agrees to 1e-12 relative per NumberError operator and 1e-9 (relative to the largest entry) for the fit-fraction assembly; libm pow/log/exp differences are inside that tolerance",
     "NumberError theorems assume non-negative input errors and the domain where the derivative exists (positive base for x**y with uncertain or fractional exponent and for log, non-zero divisor; a negative base is covered for exponents >= 1 only); Real.rpow is the model of python's float power on that domain",
@@ -21,6 +21,10 @@ ASSUMPTIONS = [
     "the gradient of a batch sum is taken to be the sum of the per-event gradients (linearity of the tape) in evalBatch; numpy's sum(0) over the batch axis and python's left-to-right sum are the same real number",
     "force_pos_def / force_pos_def_minuit2 for a NON-positive-definite Hessian are modelled (all three branches, numpy view aliasing of `diag`, eigenvalues of the triangular p = its diagonal) and compared with the code, but nothing is claimed about the repaired matrix (outside the property's hypothesis); with numpy >= 2 np.linalg.eig returns complex dtype, the comparison uses the real parts when all imaginary parts are exactly 0",
     "cal_hesse_correct: the whole loop is in the model and compared bit-for-bit with the code on a synthetic FCN over a real VarsManager; the theorems are per entry (one pass of the loop body on the list state, every n / point / step) — the fold over corr_params x variables (which entries are visited, symmetry of the result) is validated by the search on quadratics, not proved",
+    "entry points (templates/ErrEntry.lean.in, Props/C09d.lean): the VarsManager is a list of slots, one per distinct tf.Variable (tied names share a slot, fixed variables are slots outside `tr`); the name -> slot map is computed by the harness from the real VarsManager, not by the model. In the theorems the likelihood (value / gradient / Hessian as functions of ALL stored values), numpy.linalg.inv / pinv / eig and the bound maps x2y / y2x / dydx are arbitrary functions; statements about sqrt(diag(H^-1)) carry the contracts (right inverse, eigenvalue with eigenvector, positive definite) as hypotheses. In the executable Float instance inv = pinv = Gauss-Jordan without pivoting and eig = a positive list (all entry-point correspondence cases are positive definite; the non-PD repair paths are compared through the C09x ops fpd / minuit2 / che), the bound maps are the three default sympy forms of tf_pwa.variable.Bound written out by hand (a different default form shows up as a correspondence break)",
+    "state after cal_hesse_correct with a non-empty correct_params (hcLastPoint: the argument of the last fcn(x)) is a closed form in real arithmetic, compared with the code to 1e-9, not derived from the loop; with the default correct_params the state is exact",
+    "entry-point search: the reference is sqrt(diag(H_fd^-1)) with H_fd the central second difference of the plain likelihood VALUE at `params` applied to the entry state (synthetic quadratic+quartic likelihood over a real VarsManager, 2e-5 relative; 2e-4 for 3-point with bounds) and the central difference of FCN.nll_grad on a fitted real three-resonance ConfigLoader model (2e-3 relative). method='3-point' inverts the FIT-SPACE Hessian D H D + diag(g y''), which is D H D only where the gradient vanishes: with bounds the requested point is the exact minimum of the synthetic likelihood / the fit result of the real model; non-stationary points are used with free parameters only. If the toy fit of the real model does not reach a regular minimum the real-model cases are skipped with a note (not observed for seeds 0..3)",
+    "ConfigLoader.get_params_error is driven on the synthetic likelihood as an unbound function over a stub object that provides exactly the attributes it touches (vm, inv_he, get_all_data, get_fcn, fit_params); the real-model cases call it on a real ConfigLoader",
 ]
 
 # --------------------------------------------------------------------------------------------------
@@ -464,6 +468,9 @@ def correspond(ctx, res):
     # the code around the rules: cal_hesse_correct, force_pos_def, cal_hesse_error flags, ParamsTrans, batches
     import c09_ctx
     c09_ctx.correspond_ctx(ctx, res, S)
+    # the entry points that report parameter uncertainties (templates/ErrEntry.lean.in)
+    import c09_entry
+    c09_entry.correspond_entry(ctx, res, S)
 
 
 # --------------------------------------------------------------------------------------------------
@@ -741,6 +748,9 @@ def search(ctx, res):
 
     import c09_ctx
     c09_ctx.search_ctx(ctx, res, S, hard)
+    # the entry points that report parameter uncertainties, at the REQUESTED point (state equal / different, bounds, ties, fixed)
+    import c09_entry
+    c09_entry.search_entry(ctx, res, S, hard)
 
 
 def replay(ctx, payload):
@@ -752,7 +762,15 @@ def replay(ctx, payload):
                                                                              ("%s: %s" % why) if why else "ok"))
         return 1 if why else 0
     r = C.Result()
-    search(ctx, r)
+    if rp.get("kind") in ("entry", "entry-real"):
+        # the entry points that report parameter uncertainties: only that part of the search, with the recorded seed
+        C.setup_tf()
+        import c09_entry
+        if "seed" in rp:
+            ctx.seed = rp["seed"]
+        c09_entry.search_entry(ctx, r, {}, False)
+    else:
+        search(ctx, r)
     hit = [f for f in r.failures if f.key == payload.get("key")]
     for f in hit[:3]:
         print(f.what)
@@ -760,7 +778,7 @@ def replay(ctx, payload):
 
 
 MANIFEST = {
-    "text": "Lean theorems over the reals (HasDerivAt) for ALL operands: every NumberError operator (add sub neg mul div pow rpow log exp apply, NumberError or plain second operand) returns err = sqrt(sum (df/dx_k)^2 sigma_k^2) >= 0 with the true partial derivatives (op_rule_is_jvj, full statement for the patched text); apply() without grad reports |f'(x) + R| sigma with the explicit remainder R = (f'(x+t)+f'(x-t))/2 - f'(x), |R| <= L dx for L-Lipschitz f', R = c3 dx^2 on cubics (so it is NOT exact: applyFD_cubic_not_exact); cal_err with a supplied gradient is sqrt(J diag(sigma^2) J^T); the fit-fraction gradients g_i/I - (I_i/I) g/I, the interference combination and sum_diag are the derivatives of the fractions along every line in parameter space and the reported error squared is g V g; the accumulated integrals/gradients are independent of the batching (any batch sizes / order: frac_grad_batch_invariant) and the accumulated gradient is the gradient of the accumulated integral; ParamsTrans.get_error_matrix / get_error return J V J^T / sqrt(diag) for the true Jacobian J for list, vector and row-major flattened tensor outputs with the index convention (J V J^T)[a,b] = sum_ij J[a,i] V[i,j] J[b,j] as a theorem, and composed with trans_error_matrix they are the chain rule for f o bound (bound_then_params_trans); trans_error_matrix is J V J^T for the diagonal Jacobian of the bound map; cal_hesse_correct's 5-point and 4-point second differences are exact on every quadratic NLL in every dimension, point, direction and step and return THE second derivative, with explicit remainders 10 p4 eps^2 / (q31+q13) eps^2 on quartics, and put the coordinates back; for a positive-definite Hessian force_pos_def, force_pos_def_minuit2 and cal_hesse_error (every flag combination) return THE unique inverse unchanged, diag(H^-1) > 0 and the errors are its plain roots. REFUTED on concrete witnesses: the unpatched scalar mul, div (both forms), pow with uncertain exponent, rpow; the cal_hesse_correct diagonal before f92d030; the get_error_matrix(tensor) assembly before 680c99c.",
-    "note": "Models = templates/ErrProp.lean.in (rules) and templates/ErrCtx.lean.in (context: cal_hesse_correct statement sequences and loop, force_pos_def, force_pos_def_minuit2, cal_hesse_error branch, ParamsTrans assembly, batch accumulation), instantiated at R (proofs) and Float (execution). Defective/legacy texts exist next to the current ones; the differential run decides which one the tree implements. Tie to the code: NumberError/cal_err on seeded operands incl. negative values (1e-12); FitFractions.get_frac and fit_fractions old/new on a real spin-1 three-resonance amplitude; per-batch eval_integral pieces vs cached totals; trans_error_matrix with sympy bounds; cal_hesse_error with all flag combinations on PD and indefinite Hessians; force_pos_def in all three branches; cal_hesse_correct over a real VarsManager with a synthetic quadratic+quartic FCN and arbitrary corr_params subsets/orders (bit-exact); the real ParamsTrans on a toy VarsManager with bilinear user functions and integer covariance (J V J^T compared EXACTLY, list / vector / 2x2 tensor / scalar, tape blocks as the model's input); error_trans(trans_error_matrix(V)) vs both sides of the chain-rule identity. Search (model-independent): central differences of the plain float functions; finite differences of the fraction itself along random directions; FD Jacobians for bounds, ParamsTrans (also f o bound, 2x2 tensors, mask_params); exact Hessian of quadratics for cal_hesse_correct subsets; H^-1 for every PD path and flag; batch-size invariance of fractions and errors. Still validated only: tape gradients / numpy inverse, pinv, eig / sympy derivatives meet their contracts; the fold of cal_hesse_correct over corr_params x variables; the O(dx^2) order of the central difference for general C^3 functions; everything force_pos_def does to a non-positive-definite matrix is compared with the code but not claimed.",
-    "technique": "Lean 4 proof over the reals (Mathlib HasDerivAt, uniqueness of derivatives, mean value theorem, finite sums, list inductions) of two templates instantiated at Float for differential correspondence (bit-exact / exact-integer where possible), plus refutation theorems for the legacy texts and finite-difference / exact-oracle search on the implementation",
+    "text": "Lean theorems over the reals (HasDerivAt) for ALL operands: every NumberError operator (add sub neg mul div pow rpow log exp apply, NumberError or plain second operand) returns err = sqrt(sum (df/dx_k)^2 sigma_k^2) >= 0 with the true partial derivatives (op_rule_is_jvj, full statement for the patched text); apply() without grad reports |f'(x) + R| sigma with the explicit remainder R = (f'(x+t)+f'(x-t))/2 - f'(x), |R| <= L dx for L-Lipschitz f', R = c3 dx^2 on cubics (so it is NOT exact: applyFD_cubic_not_exact); cal_err with a supplied gradient is sqrt(J diag(sigma^2) J^T); the fit-fraction gradients g_i/I - (I_i/I) g/I, the interference combination and sum_diag are the derivatives of the fractions along every line in parameter space and the reported error squared is g V g; the accumulated integrals/gradients are independent of the batching (any batch sizes / order: frac_grad_batch_invariant) and the accumulated gradient is the gradient of the accumulated integral; ParamsTrans.get_error_matrix / get_error return J V J^T / sqrt(diag) for the true Jacobian J for list, vector and row-major flattened tensor outputs with the index convention (J V J^T)[a,b] = sum_ij J[a,i] V[i,j] J[b,j] as a theorem, and composed with trans_error_matrix they are the chain rule for f o bound (bound_then_params_trans); trans_error_matrix is J V J^T for the diagonal Jacobian of the bound map; cal_hesse_correct's 5-point and 4-point second differences are exact on every quadratic NLL in every dimension, point, direction and step and return THE second derivative, with explicit remainders 10 p4 eps^2 / (q31+q13) eps^2 on quartics, and put the coordinates back; for a positive-definite Hessian force_pos_def, force_pos_def_minuit2 and cal_hesse_error (every flag combination) return THE unique inverse unchanged, diag(H^-1) > 0 and the errors are its plain roots. ENTRY POINTS (Props/C09d, every likelihood / linear-algebra oracle, every bound map, every VarsManager state, every params as None / dict / FitResult, every method None / correct (any correct_params) / 3-point / hesse, every force_pos): the errors and the error matrix ConfigLoader.get_params_error returns depend on the state held on entry only through set_all(params)(state) (errors_at_requested_point) and not at all when params assigns every stored variable (errors_independent_of_entry_state, via getElem?_setParams: last assignment wins); in the positive-definite case the hesse and default-correct methods return sqrt(diag(H(params)^-1)) with H the oracle AT the requested point; the matrix num_hess_inv_3point inverts has entry (i,j) = central difference of component j of the bound-transformed gradient along coordinate i around the fit-space image of the REQUESTED point and the loop puts x0 back (three_point_is_central_second_difference), which is the Hessian entry exactly for quadratic likelihoods, + c3 eps^2 for quartic ones, within L eps for an L-Lipschitz second derivative; the 3-point errors are |dy/dx| sqrt|V_x,kk| with dy/dx at the requested point and the matrix is dy/dx V_x dy/dx (bound_mapping); state_after: 3-point restores every stored value, hesse / default correct leave the model AT params, using_cached touches nothing and asks no oracle (using_cached without a stored matrix = the code's NameError); the error dict has the trainable variables as keys in order; corr_coef_matrix has entries V_ij/(sigma_i sigma_j) and unit diagonal for a positive diagonal. REFUTED on concrete witnesses: the unpatched scalar mul, div (both forms), pow with uncertain exponent, rpow; the cal_hesse_correct diagonal before f92d030; the get_error_matrix(tensor) assembly before 680c99c; num_hess_inv_3point with x0 read before fcn(params) (three_point_early_violates: it returns the inverse Hessian of the ENTRY state).",
+    "note": "Models = templates/ErrProp.lean.in (rules), templates/ErrCtx.lean.in (context: cal_hesse_correct statement sequences and loop, force_pos_def, force_pos_def_minuit2, cal_hesse_error branch, ParamsTrans assembly, batch accumulation) and templates/ErrEntry.lean.in (entry points: get_params_error with method resolution and params unwrapping, cal_hesse_error / cal_hesse_correct / num_hess_inv_3point as statement sequences over an oracle likelihood and a slot-list VarsManager, the text with x0 read early, error dict, corr_coef_matrix), instantiated at R (proofs) and Float (execution). Defective/legacy texts exist next to the current ones; the differential run decides which one the tree implements. Tie to the code: NumberError/cal_err on seeded operands incl. negative values (1e-12); FitFractions.get_frac and fit_fractions old/new on a real spin-1 three-resonance amplitude; per-batch eval_integral pieces vs cached totals; trans_error_matrix with sympy bounds; cal_hesse_error with all flag combinations on PD and indefinite Hessians; force_pos_def in all three branches; cal_hesse_correct over a real VarsManager with a synthetic quadratic+quartic FCN and arbitrary corr_params subsets/orders (bit-exact); the real ParamsTrans on a toy VarsManager with bilinear user functions and integer covariance (J V J^T compared EXACTLY, list / vector / 2x2 tensor / scalar, tape blocks as the model's input); error_trans(trans_error_matrix(V)) vs both sides of the chain-rule identity; ConfigLoader.get_params_error (the real function over a stub object) on a synthetic quadratic+quartic likelihood over real VarsManagers with free / two-sided + upper bounded + fixed + tied / two-sided + lower bounded variables: every method x model state equal to / different from params x dict / FitResult / None / partial dict x force_pos x correct_params: errors, inv_he (1e-8) AND the state left in the VarsManager (exact) vs ErrEntryF, the early-x0 text is run next to the current one and a tree that matches it is reported; using_cached; corr_coef_matrix. Search (model-independent): central differences of the plain float functions; finite differences of the fraction itself along random directions; FD Jacobians for bounds, ParamsTrans (also f o bound, 2x2 tensors, mask_params); exact Hessian of quadratics for cal_hesse_correct subsets; H^-1 for every PD path and flag; batch-size invariance of fractions and errors; reported errors vs sqrt(diag(H_fd(params)^-1)) with an independent central-difference Hessian of the likelihood at params for get_params_error (all methods, states, forms, layouts, params=None, correct_params, non-stationary points) and cal_hesse_error / cal_hesse_correct / num_hess_inv_3point called directly, FitResult.error / save_as fields (error, free_params, hess_inv), and the same on a fitted real three-resonance ConfigLoader model (bounded mass installed / not installed, a fixed width that differs on entry). Still validated only: tape gradients / numpy inverse, pinv, eig / sympy derivatives and inverses meet their contracts; the fold of cal_hesse_correct over corr_params x variables and the state it leaves with non-empty correct_params (closed form hcLastPoint compared to 1e-9); the name -> slot map of tied variables; the O(dx^2) order of the central difference for general C^3 functions; error_print (formatting: checked by the search only — the non-rounding branches verbatim, the printed pair within half a unit of the last digit — not modelled); everything force_pos_def does to a non-positive-definite matrix is compared with the code but not claimed.",
+    "technique": "Lean 4 proof over the reals (Mathlib HasDerivAt, uniqueness of derivatives, mean value theorem, finite sums, list inductions) of three templates instantiated at Float for differential correspondence (bit-exact / exact-integer / exact-state where possible), plus refutation theorems for the legacy and seeded texts and finite-difference / exact-oracle search on the implementation (synthetic likelihood over real VarsManagers and a fitted real ConfigLoader model)",
 }
